@@ -6,7 +6,7 @@ import (
 	"context"
 	"fmt"
 	"net/http"
-	"sort"
+	"strings"
 	"testing"
 	"testing/synctest"
 	"time"
@@ -25,20 +25,25 @@ import (
 
 func TestC13VirtualTime(t *testing.T) {
 	sub := lab.Sub("accounting-virtual-time", "rapid histories in virtual time against the real balancer with scripted backends: {request good/4xx/5xx/unreachable/abort-mid-body, request with an already cancelled client context, "+
-		"park a request in a backend in a drawn phase (before the response head / after the head and before any body byte / after body part k of n, k,n-k in 1..3), release it (good / 5xx resp. broken body), remove and re-register a backend (also while requests are parked in it), advance 300ms..3s (..11s when a handler timeout is configured) across 1 s unhealthy windows and the 1 s breaker timeout}; in two cases of five server.timeouts.handler is 2..10 s instead of a day, so parked requests are cut off by it once virtual time passes their deadline (before the head: answered by the proxy; after the head / mid-body: response aborted) and end as one completed request of the backend they were sent to; passive checks (threshold 1-2, window 1 s) / limiter / breaker on or off, 5 strategies, 1-3 backends; "+
+		"park a request in a backend in a drawn phase (before the response head / after the head and before any body byte / after body part k of n, k,n-k in 1..3), release it (good / 5xx resp. broken body), remove and re-register a backend (also while requests are parked in it), an operator's admin operation with whatever is in flight staying in flight (one event in ten, aimed two times of three at a name that has requests in flight: add a registered name again at the same address or at another one, add a new name - never beyond 999 names -, remove a name for good or until a later event adds it back, switch the strategy), advance 300ms..3s (..11s when a handler timeout is configured) across 1 s unhealthy windows and the 1 s breaker timeout}; in two cases of five server.timeouts.handler is 2..10 s instead of a day, so parked requests are cut off by it once virtual time passes their deadline (before the head: answered by the proxy; after the head / mid-body: response aborted) and end as one completed request of the backend they were sent to; passive checks (threshold 1-2, window 1 s) / limiter / breaker on or off, 5 strategies; the deployment has 1-999 names (1-3 most often, tens, hundreds, and 850-999: just below the documented 1000-name cap of the per-backend metrics) in 6 naming styles; "+
 		"in about two cases of five health_checks.active is on (Helios's own prober on its own ticker: interval 2/3/5/30 s, timeout 1-3 s, 4 health paths, unhealthy_timeout 0/1/3 s when passive checks are off; no limiter in these cases) and the health path of every backend answers in a drawn way {200, 404, 500, connection refused, nothing until the probe timeout}, changed by events of the history {health path of a backend answers differently from now on, a probe that is kept waiting is answered 200/500 before its timeout, advance across probe rounds / the probe timeout / the ejection window}: probes are no requests, so the same books must balance with them going on; "+
-		"books A1-A4 checked after every event; non-trivial = a request was still parked when its backend was ejected or re-admitted, a parked request ran into the handler timeout, a cancelled-context / aborted request occurred, or an active probe failed")
+		"books A1-A4 checked after every event, kept per name (/metrics: one entry per name, requests running in removed registrations included; /v1/backends: sum over the lines listed under the name = the requests in its registered backends; when an add of a listed name leaves the listing as long as it was - Helios lists the name once more - anything between those and those plus the ones in flight before the add), and once more on the idle balancer after everything still parked at the end of the history has been released (every gauge zero); non-trivial = an admin operation on a name with requests in flight, a request was still parked when its backend was ejected or re-admitted, a parked request ran into the handler timeout, a cancelled-context / aborted request occurred, or an active probe failed")
 	sub.NontrivialFloor(0.40)
 	sub.Floor("books-read-with-request-parked-after-head", 0.20)
 	sub.Floor("handler-timeout-before-head", 0.05)
 	sub.Floor("handler-timeout-after-head", 0.05)
 	sub.Floor("active-checks", 0.25)
 	sub.Floor("active-probe-failed", 0.15)
+	sub.Floor("deployment-of-850-999-names", 0.03)
+	sub.Floor("admin-operation-with-requests-in-flight", 0.12)
+	sub.Floor("registered-name-added-again-with-requests-in-flight", 0.07)
 	lab.Assume("L1: scripted RoundTripper replaces http.Transport (and http.DefaultTransport, through which the active prober sends); ErrAbortHandler recovered by the harness as net/http's server would")
-	maxLen := lab.Scale(40, 80)
+	maxLen := lab.Scale(50, 80)
 	lab.Check(t, sub, 3000, 100000, func(rt *rapid.T) {
 		strategy := rapid.SampledFrom(lab.Strategies).Draw(rt, "strategy")
-		nb := rapid.IntRange(1, 3).Draw(rt, "backends")
+		// the deployment dimension (deployment_test.go): 1..999 names, in one of several naming styles
+		nb := genDeploymentSize(rt, false)
+		style := genNameStyle(rt)
 		passive := rapid.IntRange(0, 3).Draw(rt, "passive") > 0
 		threshold := rapid.IntRange(1, 2).Draw(rt, "threshold")
 		limiter := rapid.IntRange(0, 3).Draw(rt, "limiter") == 0
@@ -52,11 +57,19 @@ func TestC13VirtualTime(t *testing.T) {
 		}
 		// health_checks.active: off, or Helios's own prober running on its own ticker inside the bubble, with what
 		// the health path of every backend answers drawn per backend (and changed by events of the history)
-		ap := genActive(rt, nb)
+		// (deployments of more than 64 names run without the prober: every probe round would script and log a
+		// probe per name, which buys nothing for the books)
+		var ap activeCfg
+		if nb <= 64 {
+			ap = genActive(rt, nb)
+		}
 		if ap.On {
 			limiter = false // the limiter's janitor never ends: it cannot live inside the bubble, where the prober has to be built
 		}
 		cfg := lab.BaseConfig(strategy, lab.Ones(nb))
+		for i := range cfg.Backends {
+			cfg.Backends[i].Name = style.Name(i)
+		}
 		ap.configure(cfg, passive)
 		if handlerTO > 0 {
 			cfg.Server.Timeouts.Handler = int(handlerTO / time.Second)
@@ -93,6 +106,8 @@ func TestC13VirtualTime(t *testing.T) {
 		interesting := false
 		parkedAfterHead := false
 		timedOutBeforeHead, timedOutAfterHead := false, false
+		adminBusy, againBusy, endedIdle := false, false, false // admin operation with requests in flight / a registered name registered again with requests in flight under it / books read idle after a final release
+		everNames := nb                                        // names the deployment has had by the end of the history
 		var pw *probeWorld
 		// probes leave through http.DefaultTransport (the prober uses a plain http.Client): scripted as well
 		if ap.On {
@@ -110,18 +125,132 @@ func TestC13VirtualTime(t *testing.T) {
 				hist = append(hist, pw.startup())
 			}
 			sent, completed, limited := 0, 0, 0
-			done := map[string]int{}      // completed arrivals per host
-			parked := map[string]int{}    // requests parked in the currently registered instance, per host
-			parkedOld := map[string]int{} // requests still parked in an instance that has been removed since (same name)
-			gen := map[string]int{}       // how often the backend of this host was removed and re-registered
-			type held struct {
-				host string
-				ch   chan int
-				gen  int
-				ph   int       // phase the request is parked in (0 before the response head, 1 after it, 2 mid-body)
-				due  time.Time // when the handler timeout cuts it off (zero: never within a case)
+			// The model is kept per backend NAME. A name may be registered several times (AddBackend does not
+			// refuse a name that is in use: each registration is a backend of its own, listed on its own line
+			// of /v1/backends, while /metrics keeps one entry per name) and each registration may have its own
+			// address; which of several registrations with one address a request went to cannot be seen from
+			// outside, so everything is compared per name: the sum over the lines listed under it.
+			type nameState struct {
+				done  int // completed requests sent to backends of this name
+				cur   int // requests in flight in registrations of this name that are registered now
+				maybe int // requests in flight in a registration which a repeated add of the name may have replaced (see add)
+				old   int // requests in flight in registrations that have been removed since
+				inst  int // how often the name is listed
+				hosts []string
 			}
-			var holds []held
+			var names, hosts []string // every name / host the case has used, in order of appearance
+			state := map[string]*nameState{}
+			hostName := map[string]string{}
+			newHost := func(name, host string) {
+				hosts = append(hosts, host)
+				hostName[host] = name
+				state[name].hosts = append(state[name].hosts, host)
+				if ap.On {
+					fn.SetProbeBehaviour(host, lab.Good)
+				}
+			}
+			for i := 0; i < nb; i++ {
+				name := style.Name(i)
+				names = append(names, name)
+				state[name] = &nameState{inst: 1}
+				hosts = append(hosts, lab.BackendHost(i))
+				hostName[lab.BackendHost(i)] = name
+				state[name].hosts = []string{lab.BackendHost(i)}
+			}
+			setAll := func(b lab.Behaviour) {
+				for _, h := range hosts {
+					fn.Set(h, b)
+				}
+			}
+			const (
+				inCur = iota
+				inMaybe
+				inOld
+			)
+			type held struct {
+				name, host string
+				ch         chan int
+				where      int       // which of cur / maybe / old of its name counts it
+				ph         int       // phase the request is parked in (0 before the response head, 1 after it, 2 mid-body)
+				due        time.Time // when the handler timeout cuts it off (zero: never within a case)
+			}
+			var holds []*held
+			// finished takes a parked request that has ended (released or cut off) off the books of the in-flight ones
+			finished := func(h *held) {
+				st := state[h.name]
+				switch h.where {
+				case inCur:
+					st.cur--
+				case inMaybe:
+					st.maybe--
+				default:
+					st.old--
+				}
+				st.done++
+				completed++
+			}
+			inFlight := func(name string) int { st := state[name]; return st.cur + st.maybe + st.old }
+			registered := func() []string {
+				var out []string
+				for _, n := range names {
+					if state[n].inst > 0 {
+						out = append(out, n)
+					}
+				}
+				return out
+			}
+			listed := func(name string) int {
+				n := 0
+				for _, b := range lb.ListBackends() {
+					if b.Name == name {
+						n++
+					}
+				}
+				return n
+			}
+			// remove: an operator removes a name; every registration of it goes (documented by RemoveBackend), the
+			// requests running in them run on
+			remove := func(name string) {
+				lb.RemoveBackend(name)
+				st := state[name]
+				st.old += st.cur + st.maybe
+				st.cur, st.maybe, st.inst = 0, 0, 0
+				for _, h := range holds {
+					if h.name == name {
+						h.where = inOld
+					}
+				}
+			}
+			// add: an operator registers name at host. For a name that is listed already the outcome is read off the
+			// listing (deployment_test.go): listed once more - nothing else changes, every registration keeps its own
+			// requests; refused - nothing changes; listed as often as before - an earlier registration may have been
+			// replaced, so the requests in flight under the name may or may not belong to a listed backend any
+			// more: the listing may show any number between those known to be in listed registrations and all of them.
+			// Whatever the outcome: a request that has ended is in flight nowhere.
+			add := func(rt *rapid.T, name, host string, weight int) string {
+				st := state[name]
+				before := listed(name)
+				err := lb.AddBackend(config.BackendConfig{Name: name, Address: "http://" + host, Weight: weight})
+				fn.Install(lb)
+				out := addOutcome(err != nil, before, listed(name))
+				if before == 0 && out != addListed {
+					rt.Fatalf("harness: add(%s, http://%s) of a name that is not registered: %s (%v)", name, host, out, err)
+				}
+				switch out {
+				case addListed:
+					st.inst++
+				case addReplaced, addOddly:
+					st.maybe += st.cur
+					st.cur = 0
+					st.inst = listed(name)
+					for _, h := range holds {
+						if h.name == name && h.where == inCur {
+							h.where = inMaybe
+						}
+					}
+				}
+				return out
+			}
 			// expire settles the parked requests whose handler timeout has been reached: Helios has cancelled the
 			// exchange (the scripted backends honour the request context as http.Transport does), the client has
 			// its answer - the proxy's error answer if no response head had arrived, an aborted response
@@ -141,13 +270,7 @@ func TestC13VirtualTime(t *testing.T) {
 					default:
 						panic(fmt.Sprintf("harness: a request parked in %s (phase %d) is still running %v after its handler timeout of %v", h.host, h.ph, now.Sub(h.due), handlerTO))
 					}
-					if h.gen == gen[h.host] {
-						parked[h.host]--
-					} else {
-						parkedOld[h.host]--
-					}
-					done[h.host]++
-					completed++
+					finished(h)
 					interesting = true
 					if h.ph == 0 {
 						timedOutBeforeHead = true
@@ -172,25 +295,31 @@ func TestC13VirtualTime(t *testing.T) {
 				}
 				list := map[string]int32{}
 				for _, b := range lb.ListBackends() {
-					list[b.Name] = b.ActiveConnections
+					list[b.Name] += b.ActiveConnections
 				}
-				for i := 0; i < nb; i++ {
-					name, host := lab.BackendName(i), lab.BackendHost(i)
+				for _, name := range names {
+					st := state[name]
 					var tot uint64
 					var gauge int32
 					if bm, ok := m.BackendMetrics[name]; ok {
 						tot, gauge = bm.TotalRequests, bm.ActiveConnections
 					}
-					if int(tot) != done[host] {
-						return fmt.Sprintf("%s: A3 backend_metrics[%s].total_requests=%d but %d requests sent to it have completed%s", when, name, tot, done[host], pw.note(host))
+					if int(tot) != st.done {
+						return fmt.Sprintf("%s: A3 backend_metrics[%s].total_requests=%d but %d requests sent to it have completed (a deployment of %d names, %d with everything registered at run time; the documented cap is %d)%s", when, name, tot, st.done, nb, len(names), metricsCap, pw.note(st.hosts[0]))
 					}
-					// /metrics keeps one gauge per backend NAME (requests still running in a removed instance of
-					// that name are in flight under that name); /v1/backends lists the registered instance
-					if int(gauge) != parked[host]+parkedOld[host] || int(list[name]) != parked[host] {
-						return fmt.Sprintf("%s: A4 %s has %d request(s) in flight (+%d in a removed instance of the same name), gauge reads %d in /metrics and %d in /v1/backends", when, name, parked[host], parkedOld[host], gauge, list[name])
+					// /metrics keeps one gauge per backend NAME (requests still running in a removed registration of
+					// that name are in flight under that name); /v1/backends lists the registered backends
+					if int(gauge) != inFlight(name) || int(list[name]) < st.cur || int(list[name]) > st.cur+st.maybe {
+						return fmt.Sprintf("%s: A4 %s (listed %d time(s)) has %d request(s) in flight in its listed registration(s), %d in a registration that a repeated add of the name may have replaced and %d in removed ones: the gauge reads %d in /metrics (one entry per name: want %d) and %d in /v1/backends (sum over its lines: want %d..%d)", when, name, st.inst, st.cur, st.maybe, st.old, gauge, inFlight(name), list[name], st.cur, st.cur+st.maybe)
 					}
 				}
 				return ""
+			}
+			// arrival books a dispatched request that has completed at once
+			arrival := func(before int) {
+				if fn.Arrivals() > before {
+					state[hostName[fn.HostAt(before)]].done++
+				}
 			}
 			behaviours := []lab.Behaviour{lab.Good, lab.Good, lab.Status4xx, lab.Status5xx, lab.Status5xx, lab.Unreachable, lab.AbortBody, lab.Interim5xx, lab.InterimGood}
 			for s := 0; s < steps && viol == ""; s++ {
@@ -213,18 +342,14 @@ func TestC13VirtualTime(t *testing.T) {
 					k, toDeadline = 99, true
 				}
 				switch {
-				case k < 40: // plain request with a drawn behaviour on every backend
+				case k < 30: // plain request with a drawn behaviour on every backend
 					b := rapid.SampledFrom(behaviours).Draw(rt, "behaviour")
-					for i := 0; i < nb; i++ {
-						fn.Set(lab.BackendHost(i), b)
-					}
+					setAll(b)
 					before := fn.Arrivals()
 					st, _, _, aborted := lab.Serve(lb, lab.Request("GET", "/r", client, nil))
 					sent++
 					completed++
-					if fn.Arrivals() > before {
-						done[fn.HostAt(before)]++
-					}
+					arrival(before)
 					if st == 429 && fn.Arrivals() == before && limiter {
 						limited += btoi(isRateLimit(lb, limited))
 					}
@@ -232,10 +357,95 @@ func TestC13VirtualTime(t *testing.T) {
 						interesting = true
 					}
 					hist = append(hist, fmt.Sprintf("req(%v)->%d", b, st))
-				case k < 50: // the client is already gone when the handler runs
-					for i := 0; i < nb; i++ {
-						fn.Set(lab.BackendHost(i), lab.Good)
+				case k < 40: // an operator's admin operation, with whatever is in flight staying in flight
+					// the name it is about: one that has requests in flight (two times of three, if there is one), or any
+					pick := func(from []string) string {
+						if len(holds) > 0 && rapid.IntRange(0, 2).Draw(rt, "busy_name") > 0 {
+							h := holds[rapid.IntRange(0, len(holds)-1).Draw(rt, "of_hold")]
+							for _, n := range from {
+								if n == h.name {
+									return n
+								}
+							}
+						}
+						return from[rapid.IntRange(0, len(from)-1).Draw(rt, "name")]
 					}
+					reg := registered()
+					var gone []string
+					for _, n := range names {
+						if state[n].inst == 0 {
+							gone = append(gone, n)
+						}
+					}
+					op := rapid.SampledFrom([]string{"add-again", "add-again", "add-again", "add-again-elsewhere", "add-again-elsewhere", "add-new", "add-new", "remove", "remove", "add-back", "strategy"}).Draw(rt, "admin_op")
+					// an operation that is not enabled in this state becomes the nearest one that is
+					if op == "add-new" && len(names) >= metricsCap-1 {
+						op = "add-again" // one more name and the deployment would no longer be below the documented cap
+					}
+					if op == "remove" && len(reg) < 2 {
+						op = "add-again"
+					}
+					if op == "add-back" && len(gone) == 0 {
+						op = "add-again"
+					}
+					if strings.HasPrefix(op, "add-again") && len(reg) == 0 {
+						op = "add-back"
+					}
+					weight := rapid.IntRange(1, 3).Draw(rt, "weight")
+					switch op {
+					case "add-again", "add-again-elsewhere": // a name that is registered is registered again: at the same address, or at another one
+						name := pick(reg)
+						st := state[name]
+						host := st.hosts[0]
+						if op == "add-again-elsewhere" {
+							host = fmt.Sprintf("alt%d.%s", len(hosts), st.hosts[0])
+							newHost(name, host)
+						}
+						busy := inFlight(name)
+						out := add(rt, name, host, weight)
+						if busy > 0 {
+							interesting, adminBusy, againBusy = true, true, true
+						}
+						hist = append(hist, fmt.Sprintf("add(%s at %s, weight %d; already registered, %d in flight)->%s", name, host, weight, busy, out))
+					case "add-new": // a name the deployment has not had so far
+						name := style.Name(len(names) + 1000)
+						names = append(names, name)
+						state[name] = &nameState{}
+						host := fmt.Sprintf("new%d.test", len(hosts))
+						newHost(name, host)
+						out := add(rt, name, host, weight)
+						if len(holds) > 0 {
+							adminBusy = true
+						}
+						hist = append(hist, fmt.Sprintf("add(%s at %s, weight %d; new name)->%s", name, host, weight, out))
+					case "add-back": // a name that was removed earlier comes back
+						name := pick(gone)
+						busy := inFlight(name)
+						out := add(rt, name, state[name].hosts[0], weight)
+						if busy > 0 {
+							interesting, adminBusy = true, true
+						}
+						hist = append(hist, fmt.Sprintf("add(%s, weight %d; removed earlier, %d still in flight)->%s", name, weight, busy, out))
+					case "remove":
+						name := pick(reg)
+						busy := inFlight(name)
+						remove(name)
+						if busy > 0 {
+							interesting, adminBusy = true, true
+						}
+						hist = append(hist, fmt.Sprintf("remove(%s, %d in flight)", name, busy))
+					default:
+						to := rapid.SampledFrom(lab.Strategies).Draw(rt, "to_strategy")
+						if err := lb.SetStrategy(to); err != nil {
+							rt.Fatalf("harness: strategy %s: %v", to, err)
+						}
+						if len(holds) > 0 {
+							adminBusy = true
+						}
+						hist = append(hist, fmt.Sprintf("strategy(%s, %d in flight)", to, len(holds)))
+					}
+				case k < 50: // the client is already gone when the handler runs
+					setAll(lab.Good)
 					req := lab.Request("GET", "/gone", client, nil)
 					ctx, cancel := contextCancelled(req)
 					cancel()
@@ -243,9 +453,7 @@ func TestC13VirtualTime(t *testing.T) {
 					st, _, _, _ := lab.Serve(lb, req.WithContext(ctx))
 					sent++
 					completed++
-					if fn.Arrivals() > before {
-						done[fn.HostAt(before)]++
-					}
+					arrival(before)
 					if st == 429 && fn.Arrivals() == before && limiter {
 						limited += btoi(isRateLimit(lb, limited))
 					}
@@ -267,9 +475,9 @@ func TestC13VirtualTime(t *testing.T) {
 						k1, k2 = rapid.IntRange(1, 3).Draw(rt, "k"), rapid.IntRange(1, 3).Draw(rt, "tail")
 						pname = fmt.Sprintf("after-part-%d-of-%d", k1, k1+k2)
 					}
-					for i := 0; i < nb; i++ {
-						fn.Set(lab.BackendHost(i), pb)
-						fn.SetParkParts(lab.BackendHost(i), k1, k2)
+					for _, h := range hosts {
+						fn.Set(h, pb)
+						fn.SetParkParts(h, k1, k2)
 					}
 					before := fn.Arrivals()
 					ch := make(chan int, 1)
@@ -288,12 +496,12 @@ func TestC13VirtualTime(t *testing.T) {
 						hist = append(hist, fmt.Sprintf("park(%s)->not-dispatched(%d)", pname, st))
 					} else {
 						h := fn.HostAt(before)
-						parked[h]++
+						state[hostName[h]].cur++
 						var due time.Time
 						if handlerTO > 0 {
 							due = time.Now().Add(handlerTO)
 						}
-						holds = append(holds, held{h, ch, gen[h], phase, due})
+						holds = append(holds, &held{hostName[h], h, ch, inCur, phase, due})
 						hist = append(hist, "park("+pname+")->"+h)
 						if phase > 0 {
 							parkedAfterHead = true
@@ -319,29 +527,21 @@ func TestC13VirtualTime(t *testing.T) {
 					fn.Release(h.host, as)
 					synctest.Wait()
 					<-h.ch
-					if h.gen == gen[h.host] {
-						parked[h.host]--
-					} else {
-						parkedOld[h.host]--
-					}
-					done[h.host]++
-					completed++
+					finished(h)
 					hist = append(hist, fmt.Sprintf("release(%s,%v)", h.host, as))
 				case k < 86: // an operator removes a backend (possibly with requests in flight) and registers it again
-					i := rapid.IntRange(0, nb-1).Draw(rt, "readd")
-					name, host := lab.BackendName(i), lab.BackendHost(i)
-					lb.RemoveBackend(name)
-					if err := lb.AddBackend(config.BackendConfig{Name: name, Address: "http://" + host, Weight: 1}); err != nil {
-						rt.Fatalf("harness: re-add: %v", err)
+					reg := registered()
+					if len(reg) == 0 {
+						continue
 					}
-					fn.Install(lb)
-					if parked[host] > 0 {
-						interesting = true
+					name := reg[rapid.IntRange(0, len(reg)-1).Draw(rt, "readd")]
+					busy := state[name].cur + state[name].maybe
+					remove(name)
+					out := add(rt, name, state[name].hosts[0], 1)
+					if busy > 0 {
+						interesting, adminBusy = true, true
 					}
-					hist = append(hist, fmt.Sprintf("remove+add(%s, %d in flight)", name, parked[host]))
-					parkedOld[host] += parked[host]
-					parked[host] = 0
-					gen[host]++
+					hist = append(hist, fmt.Sprintf("remove+add(%s, %d in flight)->%s", name, busy, out))
 				default:
 					ds := []time.Duration{300 * time.Millisecond, 900 * time.Millisecond, 1100 * time.Millisecond, 2100 * time.Millisecond, 3 * time.Second}
 					if handlerTO > 0 {
@@ -375,9 +575,32 @@ func TestC13VirtualTime(t *testing.T) {
 					viol = books(fmt.Sprintf("after event #%d", s))
 				}
 			}
-			_ = sort.Strings
+			// "returning to zero when idle": whatever is still parked is released, one request after the other, and
+			// the idle balancer's books are read
+			if viol == "" && len(holds) > 0 {
+				for _, h := range holds {
+					fn.Release(h.host, lab.Good)
+					synctest.Wait()
+					<-h.ch
+					finished(h)
+				}
+				hist = append(hist, fmt.Sprintf("release-all(%d)", len(holds)))
+				holds = nil
+				endedIdle = true
+				viol = books("idle, after every request that was still parked at the end of the history has been released")
+			}
+			everNames = len(names)
 		})
-		labels := append([]string{strategy}, pw.labels()...)
+		labels := append([]string{strategy, style.Label, sizeLabel(everNames)}, pw.labels()...)
+		if adminBusy {
+			labels = append(labels, "admin-operation-with-requests-in-flight")
+		}
+		if againBusy {
+			labels = append(labels, "registered-name-added-again-with-requests-in-flight")
+		}
+		if endedIdle {
+			labels = append(labels, "books-read-idle-after-final-release")
+		}
 		if pw.anyFailed() {
 			interesting = true // a probe failed: an event at a backend that is no request
 		}
@@ -402,9 +625,9 @@ func TestC13VirtualTime(t *testing.T) {
 		if timedOutAfterHead {
 			labels = append(labels, "handler-timeout-after-head")
 		}
-		sub.Case(map[string]any{"strategy": strategy, "backends": nb, "passive": passive, "threshold": threshold, "limiter": limiter, "breaker": breaker, "handler_timeout": handlerTO.String(), "active_checks": ap, "history": hist}, interesting, labels...)
+		sub.Case(map[string]any{"strategy": strategy, "backends": nb, "names": style.Label, "passive": passive, "threshold": threshold, "limiter": limiter, "breaker": breaker, "handler_timeout": handlerTO.String(), "active_checks": ap, "history": hist}, interesting, labels...)
 		if viol != "" {
-			rt.Fatalf("strategy %s backends %d passive %v(threshold %d) limiter %v breaker %v handler-timeout %v active checks %s history %v: %s", strategy, nb, passive, threshold, limiter, breaker, handlerTO, ap, hist, viol)
+			rt.Fatalf("strategy %s backends %d (%s) passive %v(threshold %d) limiter %v breaker %v handler-timeout %v active checks %s history %v: %s", strategy, nb, style.Label, passive, threshold, limiter, breaker, handlerTO, ap, hist, viol)
 		}
 	})
 }
